@@ -224,6 +224,9 @@ func (z *zkDCS) handleSessionEvent(ev zk.Event) {
 		z.connectedLock.Unlock()
 	} else {
 		z.lockHeld.Clear()
+		// closeTimer is read by the timer callback (and written above) under connectedLock
+		z.connectedLock.Lock()
+		defer z.connectedLock.Unlock()
 		if z.closeTimer == nil {
 			z.closeTimer = time.AfterFunc(z.config.SessionTimeout, func() {
 				z.connectedLock.Lock()
